@@ -313,7 +313,7 @@ func (sc *scen) challenge(key types.PrivateKey, id types.FileContractID, absID u
 	if mut == "chal-flip" {
 		return flip(sig), junk
 	}
-	return sig, fmt.Sprintf("(Sig %d (MChal %d %d))", k, absID, int64(rn))
+	return sig, fmt.Sprintf("(Sig %d (MChal %d %d))", k, absID, rn)
 }
 
 // target picks the contract a request names: the current one, or an id the host
